@@ -1238,7 +1238,10 @@ def a_file_damage(rng, c):
     if i is None:
         insert_flag(rng, c, "-file=" + v)
     elif c.args[i] in ("-file", "--file"):
-        c.args[i + 1] = v
+        if i + 1 < len(c.args):
+            c.args[i + 1] = v
+        else:
+            c.args.append(v)
     else:
         c.args[i] = "-file=" + v
 
@@ -1250,6 +1253,9 @@ def a_type_missing(rng, c):
         insert_flag(rng, c, "-type=" + v)
         return
     if c.args[i] in ("-type", "--type"):
+        if i + 1 >= len(c.args):
+            c.args.append(v)
+            return
         j = i + 1
         cur = c.args[j]
     else:
@@ -1474,7 +1480,7 @@ def fix_param_names(c):
 BASES = {"new": base_new, "enum": base_enum, "rest": base_rest, "map": base_map}
 
 
-def gen_case(rng, sub=None, ndamage=None):
+def _gen_case(rng, sub=None, ndamage=None):
     sub = sub or rng.choice(["new", "new", "enum", "rest", "map", "map"])
     c = BASES[sub](rng)
     c.flags = rng.sample(c.flagpool, min(len(c.flagpool), rng.choice([0, 0, 1, 1, 2, 3])))
@@ -1563,6 +1569,16 @@ def gen_case(rng, sub=None, ndamage=None):
                 grew = True
     c.uncertain = sorted(unc)
     if len(c.uncertain) > 4:
-        return gen_case(rng, sub, ndamage)
+        return _gen_case(rng, sub, ndamage)
     fix_param_names(c)
     return c
+
+
+def gen_case(rng, sub=None, ndamage=None):
+    """a damage that does not apply to the shape at hand (IndexError, ValueError) restarts the case"""
+    for _ in range(50):
+        try:
+            return _gen_case(rng, sub, ndamage)
+        except (IndexError, ValueError, AttributeError, TypeError):
+            continue
+    raise RuntimeError("cannot generate a case")
